@@ -188,7 +188,7 @@ def repsOk (s : String) : Bool :=
   | some n => 1 ≤ n && n ≤ 50
   | none => false
 
-def handle (ws : List String) : String :=
+def handle0 (ws : List String) : String :=
   match ws with
   | ["hdr", hx] =>
     match bytesOfHex hx with
@@ -252,5 +252,18 @@ def handle (ws : List String) : String :=
       else "bad-op"
     | _, _ => "bad-op"
   | _ => "bad-op"
+
+/-- Listings of the sequential iterators (`single`, `rib`, `tables`, `msgs`, `skip`, `trunc`) end in the
+harness' iterator-protocol verdict (harness/src/common.rs `iter_protocol`: count / last / nth / skip /
+step_by / size_hint / by_ref-then-rest / peekable on the real iterators).  The model's iterators are
+`next` functions; every default consumption of one observes its `collect` list
+(Rc/Lemmas/IterProto.lean, instantiated for `ribNext` in Rc/Thm/C16.lean), so the model's answer is
+the constant `proto=ok`. -/
+def handle (ws : List String) : String :=
+  let r := handle0 ws
+  match ws with
+  | op :: _ =>
+    if ["single", "rib", "tables", "msgs", "skip", "trunc"].contains op && r.startsWith "ok" then r ++ " proto=ok" else r
+  | [] => r
 
 end Rc.Drv.C16
